@@ -5,6 +5,7 @@ package main
 
 import (
 	"bufio"
+	"bytes"
 	"encoding/json"
 	"fmt"
 	"io"
@@ -70,9 +71,32 @@ func (o *ndw) put(v any) {
 	if err != nil {
 		panic(err)
 	}
+	if bytes.Contains(b, []byte("null")) {
+		// TLC's Json module rejects null: nil slices/maps become empty arrays
+		var x any
+		if json.Unmarshal(b, &x) == nil {
+			b, _ = json.Marshal(denull(x))
+		}
+	}
 	o.w.Write(b)
 	o.w.WriteByte('\n')
 	o.n++
+}
+
+func denull(x any) any {
+	switch t := x.(type) {
+	case nil:
+		return []any{}
+	case map[string]any:
+		for k, v := range t {
+			t[k] = denull(v)
+		}
+	case []any:
+		for i, v := range t {
+			t[i] = denull(v)
+		}
+	}
+	return x
 }
 
 func (o *ndw) close() {
